@@ -1,9 +1,10 @@
 import Driver.Common
 import CoapVerif.Model.StreamServer
+import CoapVerif.Model.StreamServerAccept
 /-! ### `streams` lines: connection histories on a real tcp / dtls server (tenth seeded round) -/
 namespace Driver.C10.Streams
 open Driver
-open CoapVerif.Spec.StreamServer CoapVerif.Model.StreamServer
+open CoapVerif.Spec.StreamServer CoapVerif.Model.StreamServer CoapVerif.Model.StreamServerAccept
 
 def parseEv (w : String) : Option Ev :=
   match w.toList with
@@ -19,6 +20,20 @@ def parseEv (w : String) : Option Ev :=
   | ['s'] => some .stop
   | _ => none
 
+/-- a word of a `streams` line: an event of the specification, or `f` / `f*<n>`: n failed Accepts, one call after the other -/
+inductive Tok
+  | ev (e : Ev)
+  | fails (n : Nat)
+
+def parseTok (w : String) : Option Tok :=
+  if w == "f" then some (.fails 1)
+  else if w.startsWith "f*" then (w.drop 2).toNat?.bind (fun n => if 1 ≤ n ∧ n ≤ 64 then some (.fails n) else none)
+  else (parseEv w).map .ev
+
+def tokEvents : Tok → List AEv
+  | .ev e => [.ev e]
+  | .fails n => List.replicate n .acceptFail
+
 def fmtIds (ids : List Nat) : String := if ids.isEmpty then "-" else ",".intercalate (ids.map toString)
 
 def fmtOut : Out → String
@@ -30,15 +45,18 @@ def fmtOut : Out → String
 /-- the model's prediction of the harness line (transport-independent: tcp/server and dtls/server share the code shape);
     the registry's key is the regenerated fact `Generated.ConnRegistry.key` -/
 def model (ws : List String) : String :=
-  match ws.mapM parseEv with
+  match ws.mapM parseTok with
   | none => "bad-op"
   | some evs =>
-    let (_, outs) := (ws.zip evs).foldl (fun (acc : State × List String) (we : String × Ev) =>
-      if acc.1.stopped then (acc.1, acc.2 ++ [s!"{we.1}=-/-"])
+    let (_, outs) := (ws.zip evs).foldl (fun (acc : AState × List String) (we : String × Tok) =>
+      if acc.1.srv.stopped then (acc.1, acc.2 ++ [s!"{we.1}=-/-"])
       else
-        let s' := step CoapVerif.Generated.ConnRegistry.key acc.1 we.2
-        let live := if s'.stopped then "-" else fmtIds (s'.live.map (·.id))
-        (s', acc.2 ++ [s!"{we.1}={fmtOut (out acc.1 s' we.2)}/{live}"])) (({} : State), [])
+        let s' := arun CoapVerif.Generated.ConnRegistry.key acc.1 (tokEvents we.2)
+        let live := if s'.srv.stopped then "-" else fmtIds (s'.srv.live.map (·.id))
+        let o := match we.2 with
+          | .ev e => fmtOut (out acc.1.srv s'.srv e)
+          | .fails _ => if accepting s' then "1" else "0"       -- back in Accept, whatever `s'.failures` is
+        (s', acc.2 ++ [s!"{we.1}={o}/{live}"])) (({} : AState), [])
     "streams " ++ " ".intercalate outs
 
 def describe (t : List SpecConn) (c : Nat) : String :=
@@ -48,14 +66,32 @@ def describe (t : List SpecConn) (c : Nat) : String :=
 
 /-- the judge: `Spec.StreamServer.openStep` after every event -/
 def judge (ws : List String) (obs : String) : String :=
-  match ws.mapM parseEv, words obs with
-  | some evs, "streams" :: toks =>
-    if toks.length != evs.length then "violates unparsable-observation"
+  match ws.mapM parseTok, words obs with
+  | some tks, "streams" :: toks =>
+    if toks.length != tks.length then "violates unparsable-observation"
     else
-      let (_, _, errs) := (evs.zip toks).foldl (fun (acc : List SpecConn × Bool × List String) (et : Ev × String) =>
+      let (_, _, errs) := (tks.zip toks).foldl (fun (acc : List SpecConn × Bool × List String) (tt : Tok × String) =>
         let (t, stopped, errs) := acc
         if stopped then acc
         else
+        match tt.1 with
+        | .fails n =>
+          -- "never … stops accepting": a connection attempt that fails inside Accept (the listener is open, the server not
+          -- stopped) opens and closes nothing (`openStepA`), and the server accepts again - however many Accepts failed before
+          match (tt.2.splitOn "=") with
+          | [evw, rl] =>
+            match rl.splitOn "/" with
+            | [res, live] =>
+              if res == "1" then
+                let want := fmtIds (t.map (·.conn.id))
+                (t, false, errs ++ (if live == want then [] else [s!"after the failed Accept `{evw}` the connections `{live}` are alive, open are `{want}`"]))
+              else
+                let f := res.splitOn ":"
+                (t, true, errs ++ [s!"the server stopped accepting: after the failed Accept number {f.getD 1 "?"} of its life (`{evw}`{if n > 1 then s!", a series of {n}" else ""}; transient error, listener open, server not stopped) it did not call Accept again within {f.getD 2 "?"} ms - no peer can connect meanwhile, whatever happened between the failures (open connections `{fmtIds (t.map (·.conn.id))}`)"])
+            | _ => (t, stopped, errs ++ ["unparsable-observation"])
+          | _ => (t, stopped, errs ++ ["unparsable-observation"])
+        | .ev ev1 =>
+          let et : Ev × String := (ev1, tt.2)
           let t' := openStep t et.1
           let want := if et.1 == .stop then "-" else fmtIds (t'.map (·.conn.id))
           match (et.2.splitOn "=") with
